@@ -488,6 +488,17 @@ impl<'a> Tr<'a> {
                     }
                 }
                 let s = self.expr_k(&m.receiver, env, None, &|tr, recv| {
+                    if let Ty::Slice(et) = &recv.ty {
+                        // a list of items: List.fold_left
+                        let et = (**et).clone();
+                        let init = tr.pure(&init_e, env, None)?;
+                        let mut envf = env.clone();
+                        let pa = tr.bind_pat(&cl.inputs[0], &init.ty, &mut envf)?;
+                        let pi = tr.bind_pat(&cl.inputs[1], &et, &mut envf)?;
+                        let body = tr.pure(&cl.body, &envf, Some(&init.ty))?;
+                        let acc_ty = join(&init.ty, &body.ty).map_err(|m| unsupported(e, &m))?;
+                        return k(tr, Val { s: format!("(fold_left (fun (acc_ : {}) (x_ : {}) => let '{} := x_ in let '{} := acc_ in {}) {} {})", tr.t.coq_ty(&acc_ty)?, tr.t.coq_ty(&et)?, pi, pa, body.s, recv.s, init.s), ty: acc_ty });
+                    }
                     let n = match &recv.ty {
                         Ty::Adt(n) => n.clone(),
                         t => return Err(unsupported(e, &format!("`fold` on a value of type {} (only a type with a configured `Iterator::next`)", t.show()))),
@@ -722,6 +733,48 @@ impl<'a> Tr<'a> {
         } else {
             Ok(Some(let_pat(&temps, &call, &rest)))
         }
+    }
+
+    /// an iterator value (a type with a configured `Iterator::next`) as the list of the items it yields: a driver over fuel
+    pub fn collect_iter(&mut self, recv: &Val, at: &Expr) -> R<(String, Ty)> {
+        let n = match &recv.ty {
+            Ty::Adt(n) => n.clone(),
+            t => return Err(unsupported(at, &format!("a value of type {} used as an iterator", t.show()))),
+        };
+        let nf: Vec<FnInfo> = self.find_fns(Some(&n), "next").into_iter().filter(|f| f.self_kind == SelfKind::Mut && f.params.is_empty() && !f.has_mut_params()).collect();
+        if nf.len() != 1 {
+            return Err(unsupported(at, &format!("`{}` has no configured `Iterator::next`", n)));
+        }
+        let f = nf[0].clone();
+        let item = match &f.ret {
+            Ty::Option(t) => (**t).clone(),
+            _ => return Err(unsupported(at, "an iterator whose `next` does not return Option")),
+        };
+        if !f.assoc_params.is_empty() {
+            return Err(unsupported(at, "collecting an iterator whose `next` abstracts generic items"));
+        }
+        if !self.fuel {
+            self.needs_fuel = true;
+            return Err(unsupported(at, "an iterator used as a list (retry with fuel)"));
+        }
+        self.loop_counter += 1;
+        let id = format!("{}_collect{}", self.fn_coq, self.loop_counter);
+        let st = self.t.coq_ty(&recv.ty)?;
+        let it = self.t.coq_ty(&item)?;
+        let (fb, fa, step) = if f.fuel {
+            let outer = match self.t.fuel_consts.get(&f.key) {
+                Some(c) => c.clone(),
+                None => self.fuel_var.clone(),
+            };
+            (" (fn_ : nat)".to_string(), format!(" {}", outer), format!("match {} fn_ it_ with\n| None => None\n| Some (_, None) => Some []\n| Some (it1_, Some v_) => option_map (cons v_) ({} fuel_ fn_ it1_)\nend", f.coq, id))
+        } else {
+            (String::new(), String::new(), format!("match {} it_ with\n| (_, None) => Some []\n| (it1_, Some v_) => option_map (cons v_) ({} fuel_ it1_)\nend", f.coq, id))
+        };
+        self.aux_defs.push(format!(
+            "Fixpoint {id} (fuel0_ : nat){fb} (it_ : {st}) {{struct fuel0_}} : option (list {it}) :=\nmatch fuel0_ with\n| O => None\n| Datatypes.S fuel_ =>\n{step}\nend.",
+            id = id, fb = fb, st = st, it = it, step = step
+        ));
+        Ok((format!("({} {}{} {})", id, self.fuel_var, fa, recv.s), Ty::Slice(Box::new(item))))
     }
 
     /// `loop { body }` / `while cond { body }`: a local fix over fuel; the variables assigned in the body are its arguments
